@@ -19,8 +19,21 @@ TOPO = {"topo_mean_face": ("topological_mean", "face"), "topo_mean_edge": ("topo
         "topo_max_face": ("topological_max", "face"), "topo_min_edge": ("topological_min", "edge")}
 REMAP = {"remap_nn_face": ("nn", "face centers"), "remap_nn_node": ("nn", "nodes"), "remap_nn_edge": ("nn", "edge centers"),
          "remap_idw_face": ("idw", "face centers"), "remap_idw_node": ("idw", "nodes")}
-OWN_OPS = set(TOPO) | set(REMAP) | {"integrate", "gradient", "difference", "get_dual", "isel_grid_kw", "subset_nn"}
-FREE_OPS = {"getitem_grid_slice", "isel_grid_dict", "isel_grid_indexers", "head_grid", "diff_grid", "pad_grid", "concat_self_grid"}
+SUBSET_OPS = {"isel_grid_kw", "subset_nn", "isel_grid_slice_kw", "isel_grid_step_kw", "isel_grid_rev_kw", "isel_grid_array_kw", "isel_grid_mask_kw"}
+OWN_OPS = set(TOPO) | set(REMAP) | {"integrate", "gradient", "difference", "get_dual"} | SUBSET_OPS
+FREE_OPS = {"getitem_grid_slice", "isel_grid_dict", "isel_grid_indexers", "head_grid", "diff_grid", "pad_grid", "concat_self_grid",
+            "isel_grid_step_dict", "isel_grid_step_indexers", "getitem_grid_step", "isel_grid_rev_dict", "isel_grid_rev_indexers",
+            "getitem_grid_rev", "getitem_grid_mask"}
+SELECT_OPS = SUBSET_OPS | (FREE_OPS - {"diff_grid", "pad_grid", "concat_self_grid"})
+STEP = slice(None, None, 2)
+REV = slice(None, None, -1)
+
+
+def _mask(x, g):
+    m = np.zeros(x.sizes[g], dtype=bool)
+    m[[0, 1] if x.sizes[g] >= 3 else [0]] = True
+    return m
+
 COPY_OPS = {"copy_default", "copy_deep", "deepcopy"}
 REDUCERS = {"mean", "sum", "max", "min", "std", "var", "median", "prod", "count"}
 
@@ -161,6 +174,14 @@ def apply(op, d, x, dest=None):
     if op == "reindex": return x.reindex(**{d: x[d].values[:2]})
     if op == "isel_list_kw": return x.isel(**{d: [0]})
     if op == "where_drop": return x.where(x[d] != x[d].values[0], drop=True)
+    if op == "isel_step_kw": return x.isel(**{d: STEP})
+    if op == "isel_step_dict": return x.isel({d: STEP})
+    if op == "isel_step_indexers": return x.isel(indexers={d: STEP})
+    if op == "getitem_step": return x[_at(x, d, STEP)]
+    if op == "isel_rev_kw": return x.isel(**{d: REV})
+    if op == "isel_rev_dict": return x.isel({d: REV})
+    if op == "isel_rev_indexers": return x.isel(indexers={d: REV})
+    if op == "getitem_rev": return x[_at(x, d, REV)]
     # ---- a dimension added
     if op == "expand_dims_run": return x.expand_dims("run")
     if op == "concat_new_run": return xr.concat([x, x], dim="run")
@@ -177,6 +198,18 @@ def apply(op, d, x, dest=None):
     if op == "isel_grid_dict": return x.isel({g: [0, 1]})
     if op == "isel_grid_indexers": return x.isel(indexers={g: [0, 1]})
     if op == "head_grid": return x.head(**{g: 2})
+    if op == "isel_grid_step_dict": return x.isel({g: STEP})
+    if op == "isel_grid_step_indexers": return x.isel(indexers={g: STEP})
+    if op == "getitem_grid_step": return x[_at(x, g, STEP)]
+    if op == "isel_grid_rev_dict": return x.isel({g: REV})
+    if op == "isel_grid_rev_indexers": return x.isel(indexers={g: REV})
+    if op == "getitem_grid_rev": return x[_at(x, g, REV)]
+    if op == "getitem_grid_mask": return x[_at(x, g, _mask(x, g))]
+    if op == "isel_grid_slice_kw": return x.isel(**{g: slice(0, 2)})
+    if op == "isel_grid_step_kw": return x.isel(**{g: STEP})
+    if op == "isel_grid_rev_kw": return x.isel(**{g: REV})
+    if op == "isel_grid_array_kw": return x.isel(**{g: np.array([0, 1] if x.sizes[g] >= 3 else [0])})
+    if op == "isel_grid_mask_kw": return x.isel(**{g: _mask(x, g)})
     if op == "diff_grid": return x.diff(g)
     if op == "pad_grid": return x.pad(**{g: (1, 1)})
     if op == "concat_self_grid": return xr.concat([x, x], dim=g)
@@ -262,6 +295,79 @@ class Registry:
         return self._cnt[k][1]
 
 
+def _np_vars(g):
+    """The numpy arrays behind the variables of a grid's dataset (Variable.values does not copy numpy-backed data)."""
+    out = {}
+    for name, v in g._ds.variables.items():
+        try:
+            out[name] = np.asarray(v.values)
+        except Exception:  # noqa
+            pass
+    return out
+
+
+def shares_memory(g, h):
+    """Does any variable of grid g's dataset share memory with any variable of grid h's dataset?"""
+    a, b = _np_vars(g), _np_vars(h)
+    return any(np.shares_memory(x, y) for x in a.values() for y in b.values() if x.size and y.size)
+
+
+def edit_leaks(g, h):
+    """Behavioural probe: edit one entry of each array of g in place; does the same-named array of h change?  (restored)"""
+    a, b = _np_vars(g), _np_vars(h)
+    leaked = False
+    for name in a:
+        if name not in b or not a[name].size or a[name].shape != b[name].shape or not a[name].flags.writeable:
+            continue
+        x, y = a[name].reshape(-1), b[name].reshape(-1)
+        if not np.shares_memory(x, a[name]):  # reshape had to copy: skip
+            continue
+        old, seen = x[0].copy(), y[0].copy()
+        x[0] = old + 1 if x.dtype.kind in "iuf" else old
+        if not (y[0] == seen or (y[0] != y[0] and seen != seen)):
+            leaked = True
+        x[0] = old
+    return leaked
+
+
+def _node_keys(g):
+    lon = np.round(np.asarray(g.node_lon.values, dtype=float), 9)
+    lat = np.round(np.asarray(g.node_lat.values, dtype=float), 9)
+    return [(float(a), float(b)) for a, b in zip(lon, lat)]
+
+
+def element_keys(g, kind):
+    """Geometric identity of every element of a grid: a node is its position, an edge/face the set of its corners."""
+    _, FILL = hux.consts()
+    nk = _node_keys(g)
+    if kind == "n_node":
+        return nk
+    conn = g.face_node_connectivity.values if kind == "n_face" else g.edge_node_connectivity.values
+    return [frozenset(nk[int(j)] for j in row if j != FILL and j >= 0) for row in np.asarray(conn)]
+
+
+def selection_maps(op, pre, r, dest=None):
+    """For a selection on the grid dimension: (src, sel).
+    src[i]: index in `pre` the data at position i came from - a tracer array (values = element index) on pre's grid is
+            put through the same call;
+    sel[i]: index in pre's grid of element i of the result's grid, identified by the positions of its corners."""
+    ux = hux.import_ux()
+    k = grid_dim(pre)
+    n = pre.sizes[k]
+    try:
+        t = ux.UxDataArray(np.arange(n, dtype=float), dims=[k], uxgrid=pre.uxgrid, name="t")
+        tr = apply(op, "-", t, dest=dest)
+        src = [int(v) if v == v else -1 for v in np.asarray(tr.values, dtype=float).ravel().tolist()]
+    except Exception:  # noqa
+        src = [-2]
+    try:
+        pk = {key: i for i, key in enumerate(element_keys(pre.uxgrid, k))}
+        sel = [pk.get(key, -1) for key in element_keys(r.uxgrid, k)]
+    except Exception:  # noqa
+        sel = [-3]
+    return src, sel
+
+
 def project(r, reg):
     """Project a result to (cls, grid handle, dims [k, n, size], name, g-metadata)."""
     import xarray as xr
@@ -272,7 +378,7 @@ def project(r, reg):
     elif type(r) is xr.DataArray:
         cls = "Plain"
     else:
-        return {"cls": "Other", "grid": 0, "dims": [], "name": "other", "g": {"cnt": {k: -1 for k in GRID_KINDS}, "eq": [], "share": []}}
+        return {"cls": "Other", "grid": 0, "dims": [], "name": "other", "g": {"cnt": {k: -1 for k in GRID_KINDS}, "eq": [], "share": [], "mem": [], "leak": []}}
     grid = getattr(r, "uxgrid", None) if cls == "Ux" else None
     known = len(reg.grids)
     h = reg.handle(grid)
@@ -293,7 +399,7 @@ def project(r, reg):
             n = size
         dims.append({"k": k, "n": n, "size": size})
     name = {"v": "v", "w": "w", None: "none"}.get(r.name, "other")
-    g = {"cnt": {k: -1 for k in GRID_KINDS}, "eq": [], "share": []}
+    g = {"cnt": {k: -1 for k in GRID_KINDS}, "eq": [], "share": [], "mem": [], "leak": []}
     if grid is not None:
         g["cnt"] = dict(reg.cnt(grid))
         # equality / dataset sharing with the known grids is observed when a grid first appears (a copy is a new object)
@@ -307,6 +413,10 @@ def project(r, reg):
                 pass
             if getattr(grid, "_ds", None) is getattr(og, "_ds", 0):
                 g["share"].append(i + 1)
+            if shares_memory(grid, og):
+                g["mem"].append(i + 1)
+            if edit_leaks(grid, og) or edit_leaks(og, grid):
+                g["leak"].append(i + 1)
     return {"cls": cls, "grid": h, "dims": dims, "name": name, "g": g}
 
 
